@@ -59,6 +59,13 @@ class MapFiller(Visitor):
         else:
             block_type = "sequential_block"
 
+        if block.subcircuit:
+            return [
+                "subcircuit_block",
+                self.visit(block.iterations),
+                *(self.visit(stmt) for stmt in block.statements),
+            ]
+
         sexpr = [block_type, *(self.visit(stmt) for stmt in block.statements)]
         return sexpr
 
